@@ -53,12 +53,25 @@ def make_config_ns():
     R = rebind.Rebound(tsc)
     rec = {}
 
-    def fake_partition(pos, npartition, boxsize, weights=None, nthread=-1, coord=0, sort=False):
-        rec['partition'] = dict(npartition=npartition, nthread=nthread, coord=coord, sort=sort)
-        return pos, None, weights
+    real_partition = R.partition_parallel
+
+    def fake_partition(pos, npartition, boxsize, **kw):
+        rec['partition'] = dict(npartition=npartition, **kw)
+        # the real partition_parallel runs up to its first allocation of symbolic size: whatever it does to the
+        # global numba thread count (it calls numba.set_num_threads itself) is in force when the painter runs
+        c = ctx()
+        c.extra['stop_at_alloc'] = True
+        try:
+            real_partition(pos, npartition, boxsize, **kw)
+        except core.StopAtAlloc:
+            pass
+        finally:
+            c.extra['stop_at_alloc'] = False
+        return pos, None, kw.get('weights')
 
     def fake_tsc(ppart, starts, dens, box, weights, offset):
-        rec['tsc'] = dict(starts=starts)
+        # the number of numba threads in force when the stripes are painted
+        rec['tsc'] = dict(starts=starts, threads=R.numba.get_num_threads())
 
     def fake_wrap(pos, box):
         rec['wrap'] = True
@@ -116,8 +129,11 @@ def body_config(n1d, coord, user):
     e = core.lift(npv).as_int()
     vals = c.values(e, cap=400, what='accepted npartition')
     out = []
+    # concurrency is decided by the thread count in force when _tsc_parallel runs (numba's global setting),
+    # which need not be the caller's nthread argument
+    eff = core.lift(rec['tsc']['threads']).as_int() if 'tsc' in rec else nthread.e
     for v in vals:
-        r, m = c._check([e == v, nthread.e > 1], core.FORK_TIMEOUT_MS)
+        r, m = c._check([e == v, eff > 1], core.FORK_TIMEOUT_MS)
         if r == 'sat':
             out.append((v, True, m.eval(nthread.e, model_completion=True).as_long()))
         elif r == 'unknown':
@@ -167,6 +183,74 @@ def body_schedule(npart, with_w):
     parity = groups == sorted(g for g in ([s for s in range(npart) if s % 2 == 0], [s for s in range(npart) if s % 2 == 1]) if g)
     c.prove(z3.BoolVal(parity), 'stripes sharing a prange are exactly the even ones, then exactly the odd ones', key='schedule:parity')
     c.extra['result'] = dict(groups=groups)
+
+
+# ---- (2b) end-to-end wiring: the painter is handed every particle exactly once with its own weight ----
+
+def body_wiring(N, n1d, npart, nthread, coord, with_w, sort):
+    """The real tsc_parallel -> real partition_parallel (with its optional in-stripe sort) -> real _tsc_parallel,
+    with a recorder in place of _tsc_scatter: the union of the slices handed to the painter must be the caller's
+    particles, each exactly once and each with its own weight, painted into the caller's grid."""
+    c = ctx()
+    case = dict(kind='wiring', N=N, n1d=n1d, npartition=npart, nthread=nthread, coord=coord, weights=with_w, sort=sort)
+    c.extra['case'] = case
+    c.extra['keyprefix'] = 'wiring:'
+    c.extra['sample'] = case
+    c.extra['name_products'] = True
+    R = rebind.Rebound(tsc)
+    calls = []
+
+    def rec_scatter(positions, density, boxsize, weights=None, offset=0.0):
+        P = real_np.ndarray.view(positions, real_np.ndarray)
+        W = real_np.ndarray.view(weights, real_np.ndarray) if weights is not None else None
+        calls.append(dict(rows=[[P[r, j] for j in range(3)] for r in range(P.shape[0])], w=None if W is None else [W[r] for r in range(W.shape[0])],
+                          grid=density, box=boxsize, offset=offset))
+    R.set_global('_tsc_scatter', rec_scatter)
+    rebind.NB.reset(8)
+    box = Sym(c.input('box', z3.RealSort()))
+    c.assume(box.e > 0)
+    pos = common.sym_array('pos', (N, 3), 'f4')
+    for v in common.cells(pos):
+        c.assume(z3.And(v.e >= 0, v.e < box.e))
+    w = common.sym_array('w', (N,), 'f4') if with_w else None
+    pos_cells = [[common.cell(pos, i, j) for j in range(3)] for i in range(N)]
+    w_cells = [common.cell(w, i) for i in range(N)] if with_w else None
+    shape = [n1d + 1, n1d + 2, n1d + 3]
+    shape[coord] = n1d
+    dens = SArr(tuple(shape), 'f4', fill=0.0, name='dens')
+    off = Sym(c.input('o', z3.RealSort()))
+    out = R.tsc_parallel(pos, dens, box, weights=w, nthread=nthread, wrap=False, npartition=npart, sort=sort, coord=coord, offset=off)
+    env = out is dens and all(cl['grid'] is dens and cl['box'] is box and cl['offset'] is off for cl in calls)
+    c.prove(z3.BoolVal(bool(env)), 'every stripe is painted into the caller\'s grid with the caller\'s box and offset, and that grid is returned', key='wiring:grid')
+    rows = [r for cl in calls for r in cl['rows']]
+    ws = [x for cl in calls for x in (cl['w'] if cl['w'] is not None else [None] * len(cl['rows']))]
+    src = []
+    for r in rows:
+        m = [i for i in range(N) if all(r[j] is pos_cells[i][j] for j in range(3))]
+        src.append(m[0] if len(m) == 1 else None)
+    perm = len(rows) == N and all(x is not None for x in src) and sorted(src) == list(range(N))
+    c.prove(z3.BoolVal(perm), 'the particles handed to the painter over all stripes are the caller\'s particles, each exactly once', key='wiring:particles')
+    if not perm:
+        return
+    if not with_w:
+        c.prove(z3.BoolVal(all(x is None for x in ws)), 'no weights are invented for an unweighted call', key='wiring:weights')
+        return
+    if any(x is None or x is arrays.UNINIT for x in ws):
+        c.report('violation', 'a stripe is painted without (or with unwritten) weights although the caller gave weights', key='wiring:weights')
+        return
+    xs = [core.lift(pos_cells[i][coord]).as_real() for i in range(N)]
+    conds = []
+    for k in range(N):
+        a, b = core.lift(ws[k]), core.lift(w_cells[src[k]])
+        if not a.e.eq(b.e):
+            conds.append(core._b(a == b))
+    c.prove(z3.Implies(z3.Distinct(*xs) if N > 1 else z3.BoolVal(True), z3.And(conds) if conds else z3.BoolVal(True)),
+            'each particle is painted with its own weight', key='wiring:weights')
+    c.prove(z3.BoolVal(all(ws[k] is w_cells[src[k]] for k in range(N))), 'each particle is painted with its own weight', key='wiring:weights')
+    unt = [core._b(core.lift(common.cell(w, i)) == core.lift(w_cells[i])) for i in range(N) if common.cell(w, i) is not w_cells[i]]
+    unt += [core._b(core.lift(common.cell(pos, i, j)) == core.lift(pos_cells[i][j])) for i in range(N) for j in range(3) if common.cell(pos, i, j) is not pos_cells[i][j]]
+    c.prove(z3.Implies(z3.Distinct(*xs) if N > 1 else z3.BoolVal(True), z3.And(unt) if unt else z3.BoolVal(True)),
+            'the caller\'s positions (wrap=False) and weights are not modified', key='wiring:input')
 
 
 # ---- (3) row summary of the real _tsc_scatter ------------------------------------------------
@@ -333,6 +417,12 @@ def items(tier, seed):
             out.append(dict(name=f'n1d={n1d:03d}/coord={coord}', kind='grid', n1d=n1d, coord=coord))
     for npart in range(1, 9):
         out.append(dict(name=f'schedule/npartition={npart}', kind='schedule', npart=npart))
+    # wiring: (N, n1d, npartition, nthread) -- nthread=1 accepts any explicit npartition; nthread=2 needs npartition <= n1d//3, even
+    wl = [(2, 4, 2, 1), (3, 4, 3, 1), (2, 6, 2, 2), (3, 7, 2, 2)]
+    if tier == 'thorough':
+        wl += [(4, 4, 2, 1), (3, 12, 4, 2), (4, 12, 4, 3), (3, 5, 5, 1)]
+    for N, n1d, npart, nth in wl:
+        out.append(dict(name=f'wiring/N={N}/n1d={n1d}/npartition={npart}/nthread={nth}', kind='wiring', N=N, n1d=n1d, npart=npart, nthread=nth))
     if tier == 'thorough':
         big = sorted({v for k in range(5, 11) for b in (2 ** k, 3 * 2 ** (k - 1)) for v in (b - 1, b, b + 1, b + 2, b + 3) if 64 < v <= 1024})
         for n1d in big:
@@ -351,6 +441,15 @@ def run(item):
         tot['assumptions'] = sorted(set(tot['assumptions']) | set(r['assumptions']))
         if r.get('cov'):
             harness.merge_cov(tot['cov'], r['cov'])
+    if item['kind'] == 'wiring':
+        for coord in (0, 1, 2):
+            for ww in (False, True):
+                for srt in (False, True):
+                    if coord != item['N'] % 3 and not (ww and srt):
+                        continue
+                    r, res = common.run_paths(lambda: body_wiring(item['N'], item['n1d'], item['npart'], item['nthread'], coord, ww, srt), cov_funcs=FUNCS)
+                    add(r)
+        return tot
     if item['kind'] == 'schedule':
         for ww in (False, True):
             r, res = common.run_paths(lambda: body_schedule(item['npart'], ww), cov_funcs=FUNCS)
@@ -469,6 +568,36 @@ for b in bad: print('  ', b)
 sys.exit(1 if bad else 0)
 '''
         return common.write_replay(path, body_s)
+    if i.get('kind') == 'wiring':
+        m = e.get('model', {})
+        body_w = f'''
+from fractions import Fraction as F
+import warnings; warnings.simplefilter('ignore')
+import abacusnbody.analysis.tsc as tsc
+import numba
+m = {m!r}
+case = {i!r}
+N, n1d, npart, nth, coord, sort = case['N'], case['n1d'], case['npartition'], case['nthread'], case['coord'], case['sort']
+nth = min(nth, numba.config.NUMBA_NUM_THREADS)
+box = float(F(m.get('box', 1))); off = float(F(m.get('o', 0)))
+pos = np.array([[float(F(m.get(f'pos[{{a}},{{b}}]', 0))) for b in range(3)] for a in range(N)], dtype=np.float64).reshape(N, 3)
+w = np.array([float(F(m.get(f'w[{{a}}]', a + 1))) for a in range(N)], dtype=np.float64) if case['weights'] else None
+shape = [n1d + 1, n1d + 2, n1d + 3]; shape[coord] = n1d
+bad = []
+ref = np.zeros(shape)
+for k in range(N):      # serial reference: the real kernel, one particle at a time
+    tsc._tsc_scatter(pos[k:k + 1].copy(), ref, box, weights=None if w is None else w[k:k + 1].copy(), offset=off)
+p0 = pos.copy(); w0 = None if w is None else w.copy()
+got = tsc.tsc_parallel(pos, np.zeros(shape), box, weights=w, nthread=nth, wrap=False, npartition=npart, sort=sort, coord=coord, offset=off)
+if not np.allclose(got, ref, rtol=1e-9, atol=1e-12):
+    bad.append(f'tsc_parallel(npartition={{npart}}, sort={{sort}}, weights={{case["weights"]}}) differs from the serial deposit by {{np.abs(got - ref).max()}}')
+if not np.array_equal(pos, p0) or (w is not None and not np.array_equal(w, w0)):
+    bad.append("the caller's pos / weights arrays were modified")
+print('case', case, 'box', box, 'offset', off, 'pos', pos.tolist(), 'w', None if w is None else w0.tolist())
+for b in bad: print('  ', b)
+sys.exit(1 if bad else 0)
+'''
+        return common.write_replay(path, body_w)
     if i.get('kind') == 'crosscheck':
         return None, 'closed-form row relation disagrees with the engine-derived summary of _tsc_scatter (machinery inconsistency)'
     m = e.get('model', {})
@@ -478,7 +607,7 @@ import warnings; warnings.simplefilter('ignore')
 import abacusnbody.analysis.tsc as tsc
 m = {m!r}
 case = {i!r}
-n1d, npart, coord, nth = case['n1d'], case['npartition'], case['coord'], max(2, int(case.get('nthread', 2)))
+n1d, npart, coord, nth = case['n1d'], case['npartition'], case['coord'], max(1, int(case.get('nthread', 2)))
 x1, x2, o = float(F(m['x1'])), float(F(m['x2'])), float(F(m['o']))
 shape = [2 * n1d + 6, 2 * n1d + 9, 2 * n1d + 12]; shape[coord] = n1d      # the anisotropic grid of the configuration step
 bad = []
@@ -492,6 +621,7 @@ try:
 except ValueError as ex:
     accepted = False
     print('rejected:', ex)
+eff = numba.get_num_threads()       # threads in force while the stripes were painted
 # (b) the two particles are put in two different stripes of the same pass
 ps, st, _ = tsc.partition_parallel(pos, npart, 1.0, coord=coord, nthread=nth)
 stripe = [int(np.searchsorted(st, k, side='right') - 1) for k in range(2)]
@@ -503,8 +633,8 @@ for k in range(2):
     tsc._tsc_scatter(pos[k:k + 1], d, 1.0, offset=o)
     rows.append(set(np.nonzero(d.sum(axis=tuple(a for a in range(3) if a != coord)))[0].tolist()))
 common = rows[0] & rows[1]
-print('n1d', n1d, 'npartition', npart, 'coord', coord, 'nthread', nth, 'x', x1, x2, 'offset', o, 'stripes', sa, 'rows', rows, 'common', common)
-if accepted and sa[0] != sa[1] and (sa[0] - sa[1]) % 2 == 0 and common:
+print('n1d', n1d, 'npartition', npart, 'coord', coord, 'nthread', nth, 'threads in force', eff, 'x', x1, x2, 'offset', o, 'stripes', sa, 'rows', rows, 'common', common)
+if accepted and eff > 1 and sa[0] != sa[1] and (sa[0] - sa[1]) % 2 == 0 and common:
     bad.append(f'accepted configuration lets stripes {{sa}} (same pass) both update row(s) {{sorted(common)}}')
 for b in bad: print('  ', b)
 sys.exit(1 if bad else 0)
